@@ -6,6 +6,12 @@ Scenario  {"op": name, "progs": [[ev, ...] per source thread], "params": {...}, 
   merge_all / merge_max / flat_map: thread 0 is the OUTER source, its k-th "n" emits inner source k
   (k = 1, 2, ..): the sources 1.. are hot (what they emit before being subscribed is lost).
   window_time / window_toc: thread 0 is the source, the last thread is the worker of the timer scheduler.
+  merge_static (reactivex.merge(a, b, ..)) / merge_with (a.pipe(ops.merge(b, ..))): the STATIC forms; every
+  thread is a source.  The outer sequence (from_iterable of the sources) runs on the SUBSCRIBING thread, so
+  the subscription itself is made by one more controlled thread (logical thread 0; source i is thread i+1):
+  sources that are already subscribed emit while the outer is still handing out the remaining ones and
+  completing.  What a hot source pushes before it is subscribed is lost.  Oracle only (no transition system).
+  amb3: reactivex.amb(a, b, c, ..) (nested amb over never()); subscribed on the main thread.  Oracle only.
 
 Between the operator and the subscriber sits a TAP that logs every call the operator makes on its
 downstream observer: ("enter", kind) ... ("exit", kind) with a yield point in between, so that two calls
@@ -28,7 +34,9 @@ import k3x
 import lib
 
 OPS = ("merge_all", "merge_max", "flat_map", "zip", "combine_latest", "with_latest_from", "amb",
-       "window_time", "window_toc")
+       "window_time", "window_toc", "merge_static", "merge_with", "amb3")
+ORACLE_ONLY = ("merge_static", "merge_with", "amb3")       # no Coq transition system: judged by the oracle only
+SUBSCRIBER_THREAD = ("merge_static", "merge_with")        # subscription made by a controlled thread
 
 MODULES = ["reactivex.observable.observable", "reactivex.observable.zip", "reactivex.observable.combinelatest"]
 
@@ -152,6 +160,12 @@ def build(w, sc):
         return s[0].obs.pipe(ops.with_latest_from(*[x.obs for x in s[1:]]))
     if op == "amb":
         return s[0].obs.pipe(ops.amb(s[1].obs))
+    if op == "merge_static":
+        return reactivex.merge(*[x.obs for x in s])
+    if op == "merge_with":
+        return s[0].obs.pipe(ops.merge(*[x.obs for x in s[1:]]))
+    if op == "amb3":
+        return reactivex.amb(*[x.obs for x in s])
     if op == "merge_all":
         return s[0].obs.pipe(ops.merge_all())
     if op == "merge_max":
@@ -180,12 +194,22 @@ def run_once(sc, chooser, targets, wired=False, max_steps=4000):
     ado = AutoDetachObserver(user("n"), user("e"), user("c"))
     tap = Tap(w, ado)
     pre = []
-    w.ctl = _PreLog(pre)                 # subscription time: logged apart (runs on the main thread)
-    disp = opobs._subscribe_core(tap, None)
-    if wired:
-        ado.subscription = disp
-    w.keep = disp
-    w.ctl = c
+    if sc["op"] in SUBSCRIBER_THREAD:
+        w.ctl = c
+
+        def subscriber():                # logical thread 0: the outer sequence of the static merge runs here
+            disp = opobs._subscribe_core(tap, None)
+            if wired:
+                ado.subscription = disp
+            w.keep = disp
+        c.spawn(subscriber)
+    else:
+        w.ctl = _PreLog(pre)             # subscription time: logged apart (runs on the main thread)
+        disp = opobs._subscribe_core(tap, None)
+        if wired:
+            ado.subscription = disp
+        w.keep = disp
+        w.ctl = c
     nsrc = len(w.srcs)
     merge_like = sc["op"] in ("merge_all", "merge_max", "flat_map")
 
